@@ -110,6 +110,12 @@ pub fn exec_op(r: &mut Run, c: &mut Composer, idx: usize, t: &[&str]) {
             (Some(w), Some(v)) => c.verif_set_witness(w, v),
             _ => bad!("bad setw"),
         },
+        // adversarial witness generation only (never sent to the model): gadgets read the bits of the witness from this
+        // 256-bit little-endian integer (e.g. value + r) instead of from its canonical value
+        ("hostview", 3) => match (r.wit(c, t[1]), hex_bytes32_le(t[2])) {
+            (Some(w), Some(b)) => dusk_plonk::verif::set_host_view(Some((w.index(), b))),
+            _ => bad!("bad hostview"),
+        },
         ("setpi", 3) => match (t[1].parse::<usize>().ok(), fe_from_hex(t[2])) {
             (Some(row), Some(v)) => {
                 c.verif_set_public_input(row, v);
@@ -402,10 +408,12 @@ pub fn exec_op(r: &mut Run, c: &mut Composer, idx: usize, t: &[&str]) {
 
 pub fn run_prog(c: &mut Composer, src: &str) -> Run {
     let mut r = Run::new();
+    dusk_plonk::verif::set_host_view(None);
     for (idx, op) in src.split(';').enumerate() {
         let toks: Vec<&str> = op.split(' ').filter(|s| !s.is_empty()).collect();
         exec_op(&mut r, c, idx, &toks);
     }
+    dusk_plonk::verif::set_host_view(None);
     r
 }
 
@@ -505,4 +513,17 @@ impl Circuit for ProgCircuit {
         }
         Ok(())
     }
+}
+
+/// 256-bit big-endian hex -> little-endian bytes
+fn hex_bytes32_le(h: &str) -> Option<[u8; 32]> {
+    if h.len() > 64 || h.is_empty() {
+        return None;
+    }
+    let padded = format!("{:0>64}", h);
+    let mut out = [0u8; 32];
+    for i in 0..32 {
+        out[31 - i] = u8::from_str_radix(&padded[2 * i..2 * i + 2], 16).ok()?;
+    }
+    Some(out)
 }
